@@ -40,6 +40,7 @@ fn main() {
         }
         "ver" => fnprops::ver(&args[2], &args[3]),
         "cup" => fnprops::cup(&args[2], &args[3], seed),
+        "wire" => fnprops::wire(&args[2], &args[3]),
         "gen" => fnprops::generator(&args[2], &args[3]),
         "time" => fnprops::time(&args[2], &args[3], seed),
         _ => {
